@@ -56,7 +56,7 @@ def strategy(draw, tier):
             'via': draw(st.sampled_from(['func', 'group'])), 'refit': draw(st.booleans()),
             'progress': draw(st.sampled_from([None, None, 'tqdm'])), 'layout': draw(st.sampled_from(['C', 'C', 'F', 'T'])),
             'delays': draw(st.sampled_from([[], [], [60, 30, 0], [40, 0, 20, 0], [80, 0]])), 'other_object': draw(st.booleans()),
-            'duplicate': draw(st.integers(0, 4)) == 0, 'edit_options': draw(st.integers(0, 2)) == 0}
+            'duplicate': draw(st.integers(0, 4)) == 0, 'omit_defaults': draw(st.booleans()), 'edit_options': draw(st.integers(0, 2)) == 0}
 
 
 def slice_reference(block, fs, fr, kw):
@@ -131,8 +131,13 @@ def run_group(case, X, fs, fr, axis, arg, rs, via, opts, n0, n1):
                 except Exception:  # noqa - only the second call is judged
                     pass
                 arg[0], arg[-1] = first, last
-            out = with_timeout(lambda: guarded(compute_features_3d, X, fs, fr, compute_features_kwargs=arg, axis=axis,
-                                               return_samples=rs, n_jobs=case['n_jobs'], progress=case['progress']), 120)
+            kw = dict(compute_features_kwargs=arg, axis=axis, return_samples=rs, n_jobs=case['n_jobs'], progress=case['progress'])
+            if case.get('omit_defaults'):
+                # rely on the documented defaults instead of spelling them out (axis=0, return_samples=True, progress=None)
+                for key, default in (('axis', 0), ('return_samples', True), ('progress', None), ('compute_features_kwargs', None)):
+                    if kw[key] is default or kw[key] == default and not isinstance(kw[key], tuple):
+                        kw.pop(key)
+            out = with_timeout(lambda: guarded(compute_features_3d, X, fs, fr, **kw), 120)
             models = None
         else:
             o = gc.materialise(opts) or {}
